@@ -86,6 +86,8 @@ impl Writer {
         }
         check_appendable(&self.col, data.len())?;
 
+        #[cfg(walrus_verif)]
+        crate::wal::verif::yield_point("w_flag");
         let mut block = self.current_block.lock().map_err(|_| {
             std::io::Error::new(std::io::ErrorKind::Other, "current_block lock poisoned")
         })?;
@@ -107,7 +109,11 @@ impl Writer {
             let mut sealed = block.clone();
             sealed.used = *cur;
             sealed.mmap.flush()?;
+            #[cfg(walrus_verif)]
+            crate::wal::verif::yield_point("w_seal_pre");
             let _ = self.reader.append_block_to_chain(&self.col, sealed);
+            #[cfg(walrus_verif)]
+            crate::wal::verif::yield_point("w_seal_post");
             debug_print!("[writer] appended sealed block to chain: col={}", self.col);
             // switch to new block
             // SAFETY: We hold `current_block` and `current_offset` mutexes, so
@@ -221,6 +227,8 @@ impl Writer {
         );
 
         // Phase 1: Pre-allocation & Planning
+        #[cfg(walrus_verif)]
+        crate::wal::verif::yield_point("b_flag");
         let mut block = self.current_block.lock().map_err(|_| {
             std::io::Error::new(std::io::ErrorKind::Other, "current_block lock poisoned")
         })?;
@@ -263,7 +271,11 @@ impl Writer {
                 let mut sealed = block.clone();
                 sealed.used = planning_offset;
                 sealed.mmap.flush()?;
+                #[cfg(walrus_verif)]
+                crate::wal::verif::yield_point("b_seal_pre");
                 let _ = self.reader.append_block_to_chain(&self.col, sealed);
+                #[cfg(walrus_verif)]
+                crate::wal::verif::yield_point("b_seal_post");
 
                 // Allocate new block
                 // SAFETY: We hold locks, so this writer has exclusive ownership
